@@ -40,20 +40,20 @@ register("C03", "exploration",
          30, 420,
          [SeqEnumPart("C03", "obj", "seq-enum", focus=["rebind-rejected"]),
           SeqPart("C03", focus=["rebind-rejected"], weight=2.5, hooks=_raw_hooks),
-          ConcPart("C03", "obj", name="conc-obj", weight=1.0)])
+          ConcPart("C03", "obj", name="conc-obj", weight=1.0, mp="mixed")])
 
 register("C04", "exploration",
          SEQ_RULE + "; focus = a successful delete_object or a delete_if_invalid_object in a history with shared content",
          COMMON_ASSUME, 30, 420,
          [SeqEnumPart("C04", "obj", "seq-enum", focus=["delete-ok", "div"]),
           SeqPart("C04", focus=["delete-ok", "div"], weight=2.5),
-          ConcPart("C04", "obj", name="conc-obj", weight=1.0)])
+          ConcPart("C04", "obj", name="conc-obj", weight=1.0, mp="mixed")])
 
 register("C05", "exploration",
          SEQ_RULE + "; focus = any reference-changing call (tag/delete/store with pid)",
          COMMON_ASSUME, 30, 420,
          [SeqEnumPart("C05", "obj", "seq-enum"), SeqPart("C05", focus=["op:tag", "delete-ok", "op:store"], weight=2.5, hooks=_raw_hooks),
-          ConcPart("C05", "obj", name="conc-obj", weight=1.0)])
+          ConcPart("C05", "obj", name="conc-obj", weight=1.0, mp="mixed")])
 
 register("C06", "exploration",
          SEQ_RULE + "; focus = a store_object with validation data or a delete_if_invalid_object",
@@ -93,13 +93,13 @@ register("C07", "exploration", CONC_RULE,
                           "StoreObjectForPidAlreadyInProgress accepted when a concurrent store_object or "
                           "delete_object owns the pid; <= 4 tasks, <= 8 calls per scenario"],
          40, 480,
-         [ConcPairsPart("C07", "obj", "conc-pairs", weight=1.0), ConcPart("C07", "obj", weight=2.0),
+         [ConcPairsPart("C07", "obj", "conc-pairs", weight=1.0), ConcPart("C07", "obj", weight=2.0, mp="mixed"),
           ConcPairsPart("C07", "obj", "conc-triples", per_shape=(0, 6), triples=True, weight=0.01)])
 
 register("C12", "exploration", CONC_RULE,
          COMMON_ASSUME + ["a racing reader may report not-found as ValueError or FileNotFoundError"],
          40, 480,
-         [ConcPairsPart("C12", "meta", "conc-pairs", weight=1.0), ConcPart("C12", "meta", weight=2.0),
+         [ConcPairsPart("C12", "meta", "conc-pairs", weight=1.0), ConcPart("C12", "meta", weight=2.0, mp="mixed"),
           ConcPairsPart("C12", "meta", "conc-triples", per_shape=(0, 8), triples=True, weight=0.01),
           ConcPart("C12", "metax", name="conc-collide", weight=0.5)])
 
